@@ -7,6 +7,7 @@ import (
 	"testing"
 
 	"github.com/Fantom-foundation/lachesis-base/abft"
+	"github.com/Fantom-foundation/lachesis-base/inter/dag"
 	"pgregory.net/rapid"
 
 	"verif/harness/internal/cons"
@@ -190,9 +191,24 @@ func buildHistory(t *rapid.T, in *cons.Instance, ref *graphref.Ref, upTo int, cl
 	}
 	off := rapid.IntRange(0, len(pool)-1).Draw(t, "histOffset")
 	stride := rapid.IntRange(1, len(pool)).Draw(t, "histStride")
+	// an emitter may keep one mutable event object and rebuild it after changing its parents (the ID field then
+	// still holds whatever the previous Build or the caller left there)
+	reuse := rapid.IntRange(0, 2).Draw(t, "reuseEventObject") == 0
+	var shared *dag.MutableBaseEvent
 	for j := 0; j < length; j++ {
 		c := pool[(off+j*stride)%len(pool)]
 		me := ref.DagEvent(c.ev, 0)
+		if reuse {
+			if shared == nil {
+				shared = me
+			} else {
+				shared.SetSeq(me.Seq())
+				shared.SetLamport(me.Lamport())
+				shared.SetParents(me.Parents())
+				shared.SetFrame(0)
+				me = shared
+			}
+		}
 		if err := in.L.Build(me); err != nil {
 			fail("Build(candidate parents %v) = %v", c.ev.Parents, err)
 		}
